@@ -523,7 +523,7 @@ def packed_exprs(fn: ast.FunctionDef, call: ast.Call) -> list[str]:
 # ------------------------------------------------------------------------------------------------ main
 def translate() -> tuple[str, dict]:
     from translate import c11_norm
-    tree = c11_norm.functions(c11_norm.struct_constants(ast.parse(src_text('bsp.py'))), None, consts=False, aliases='table-entries')
+    tree = c11_norm.module(src_text('bsp.py'))
     consts: dict[str, Any] = {}
     for n in tree.body:
         if isinstance(n, ast.Assign) and len(n.targets) == 1 and isinstance(n.targets[0], ast.Name) \
